@@ -8,8 +8,51 @@ SPAN = re.compile(r"^\d+:\d+-\d+:\d+$")
 MEMBER_KW = ["struct", "tag", "int32", "stream", "module", "Sequence", "compact", "string", "enum", "custom"]
 
 
+DEF_KW = ["string", "int32", "bool", "uint8", "float64", "varuint62", "struct", "Sequence", "module", "AnyClass", "Result", "tag"]
+
+
+def rename_definitions(rng, prog):
+    """some definitions are named by keywords (names of primitive types among them) and referred to by those names: a name is a name"""
+    free = list(DEF_KW)
+    rng.shuffle(free)
+    defs = [d for f in prog["files"] for d in f["defs"]]
+    renamed = {}
+    for d in defs:
+        if free and rng.random() < 0.12:
+            new = free.pop()
+            if any(x["module"] == d["module"] and x["name"] == new for x in defs):
+                continue
+            old = d["scoped"]
+            d["name"], d["scoped"] = new, d["module"] + "::" + new
+            renamed[old] = d["scoped"]
+    if not renamed:
+        return
+
+    def fix(t):
+        if t.get("k") == "named" and t.get("id") in renamed:
+            t["id"] = renamed[t["id"]]
+            t["text"] = "::".join(t["text"].split("::")[:-1] + [t["id"].split("::")[-1]])
+        for k in ("e", "key", "val", "ok", "err"):
+            if k in t:
+                fix(t[k])
+    for d in defs:
+        for m in d.get("fields", []) or []:
+            fix(m["type"])
+        for e in d.get("enumerators", []) or []:
+            for m in e.get("fields") or []:
+                fix(m["type"])
+        for o in d.get("ops", []) or []:
+            for m in o["params"] + o["returns"]:
+                fix(m["type"])
+        for b in d.get("bases", []) or []:
+            fix(b)
+        if d["kind"] == "alias":
+            fix(d["type"])
+
+
 def decorate(rng, prog):
     """identifiers that collide with keywords (members only, so references stay valid) and simple doc comments"""
+    rename_definitions(rng, prog)
     op_names = {o["name"] for f in prog["files"] for d in f["defs"] for o in d.get("ops", [])}
     for f in prog["files"]:
         for d in f["defs"]:
